@@ -16,4 +16,50 @@ func init() {
 			Quick: map[string]int{"K": 3, "L": 3}, Thorough: map[string]int{"K": 4, "L": 4},
 		}},
 	})
+
+	// ---------------------------------------------------------------- C15
+	c15Variants := func(n int) []map[string]int {
+		var v []map[string]int
+		for p := 0; p < n; p++ {
+			v = append(v, map[string]int{"P": p})
+		}
+		return v
+	}
+	register(&checkSpec{
+		ID:   "C15",
+		Rule: "one path = one class of inputs (all byte strings satisfying the path condition) through the real Scanner.Scan; Stream: every source of <= N bytes scanned to EOF; Step: T consecutive Scan calls over (concrete context P) + (window of <= N symbolic bytes) from an arbitrary scanner state (insertSemi, nParen, line-start symbolic)",
+		Assumptions: []string{
+			"bound: Stream covers every input of at most N bytes; Step covers tokens reachable within the window after each of the listed concrete contexts; longer inputs are outside the claim",
+			"ASCII=1: window bytes < 0x80 (non-ASCII bytes only through the concrete contexts); ASCII=0 runs in the thorough tier",
+			"token design conventions adopted by the oracle: the literal of CSTRING/PYSTRING is the quoted part after the c / py prefix; an inserted semicolon has zero width or covers exactly the newline it replaces; a number's UNIT is a separate token directly after the number",
+			"progress measure: 4*(len-offset) + 2*[unit pending] + [insertSemi] strictly decreases on every non-EOF Scan (gives: at most one token per byte plus inserted semicolons)",
+			"stubs: fmt.Sprintf (error message text only), sync.Mutex (no-op, single goroutine)",
+		},
+		Harnesses: []harnessSpec{
+			{Name: "VxC15Stream", Pkg: "github.com/goplus/xgo/scanner", Files: []string{"c15/c15.go"},
+				Quick: map[string]int{"N": 3, "ASCII": 1, "P": 0}, Thorough: map[string]int{"N": 3, "ASCII": 0, "P": 0},
+				BudgetViolation: true, MaxSteps: 400_000},
+			{Name: "VxC15Step", Pkg: "github.com/goplus/xgo/scanner", Files: []string{"c15/c15.go"},
+				Quick: map[string]int{"N": 2, "ASCII": 1, "T": 3}, Thorough: map[string]int{"N": 3, "ASCII": 1, "T": 3},
+				Variants: c15Variants(43), BudgetViolation: true, MaxSteps: 400_000},
+		},
+	})
+
+	// ---------------------------------------------------------------- C16
+	register(&checkSpec{
+		ID:   "C16",
+		Rule: "one path = one class of inputs through BOTH real scanners (XGo scanner.Scan and GOROOT go/scanner.Scan, go1.23.5) on the same bytes: concrete context P + window of <= N symbolic bytes, both comment modes; tokens compared until EOF",
+		Assumptions: []string{
+			"Go lexemes only: window bytes exclude # $ ? @; an input whose XGo token stream contains =>, ->, <>, UNIT, RAT, CSTRING, PYSTRING, ?, $ is outside the property and dropped",
+			"reference: go/scanner of the installed toolchain (go1.23.5), executed symbolically from GOROOT source",
+			"open known findings are assumed away by class (known_findings.json: tilde, bang-newline, ellipsis-newline, autosemi-before-comment); comparison of a stream stops at the first token where such a class applies",
+			"ASCII=1: window bytes < 0x80",
+		},
+		Harnesses: []harnessSpec{
+			{Name: "VxC16", Pkg: "github.com/goplus/xgo/scanner", Files: []string{"c16/c16.go"},
+				Quick: map[string]int{"N": 2, "ASCII": 1, "KF_TILDE": 0, "KF_BANG": 0, "KF_ELLIPSIS": 0, "KF_AUTOSEMI_COMMENT": 0},
+				Thorough: map[string]int{"N": 3, "ASCII": 1, "KF_TILDE": 0, "KF_BANG": 0, "KF_ELLIPSIS": 0, "KF_AUTOSEMI_COMMENT": 0},
+				Variants: c15Variants(42), MaxSteps: 600_000},
+		},
+	})
 }
